@@ -125,6 +125,21 @@ def cyclic_text(d, rng):
     truth = [{"chain": "A", "resi": ri, "icode": "", "resn": rn, "base": topo.base_of(rn), "kind": "aa",
               "pos": "N" if k == 0 else "C" if k == len(resids) - 1 else "I", "cyclic": cyc}
              for k, (ri, rn) in enumerate(resids)]
+    if rng.random() < 0.6:
+        # further, linear chains next to the cyclic one (ids sorting after and before it): their termini are due
+        from ..gen import structures as S
+        extra_items, extra_truth = [], []
+        for cid in rng.sample(["B", "C", "0"], rng.randint(1, 2)):
+            pep = S.peptide(S.random_sequence(rng, rng.randint(3, 5), pool=["SER", "ALA", "PHE", "GLU", "LYS", "GLY"]), rng,
+                            cterm_oxt=rng.random() < 0.4)
+            S.transform(pep, np.eye(3), np.array([40.0 + 15.0 * len(extra_items), 0.0, 0.0]))
+            it2, tr2 = S.assemble([{"id": cid, "start": 1, "residues": pep}], end=False)
+            extra_items += it2
+            extra_truth += tr2
+        items = [it for it in items if it != "END"] + extra_items + ["END"]
+        pdbfmt.renumber(items)
+        t = pdbfmt.to_text(items)
+        truth = truth + extra_truth
     return t, items, truth, dist
 
 
